@@ -40,6 +40,12 @@ fn is_blank(c: u8) -> bool {
 
 /// Lex `s` completely. Err carries the first lexical fault.
 pub fn lex(s: &str) -> Result<Vec<Lx>, Fault> {
+    lex_opts(s, false)
+}
+
+/// `continuations`: a backslash directly followed by a line end (line continuation inside a
+/// `define) counts as white space instead of being a lone backslash
+pub fn lex_opts(s: &str, continuations: bool) -> Result<Vec<Lx>, Fault> {
     let b = s.as_bytes();
     let n = b.len();
     let mut out = vec![];
@@ -91,6 +97,9 @@ pub fn lex(s: &str) -> Result<Vec<Lx>, Fault> {
                 i += 1;
             }
             out.push(Lx { k: K::Str, b: st, e: i });
+        } else if c == b'\\' && continuations && i + 1 < n && (b[i + 1] == b'\n' || (b[i + 1] == b'\r' && i + 2 < n && b[i + 2] == b'\n')) {
+            i += if b[i + 1] == b'\n' { 2 } else { 3 };
+            out.push(Lx { k: K::Ws, b: st, e: i });
         } else if c == b'\\' {
             i += 1;
             let s2 = i;
@@ -140,7 +149,7 @@ pub fn is_trivia(k: K) -> bool {
 
 /// the significant lexemes (no white space, no comments) as strings
 pub fn significant(s: &str) -> Result<Vec<String>, Fault> {
-    Ok(lex(s)?.into_iter().filter(|l| !is_trivia(l.k)).map(|l| s[l.b..l.e].to_string()).collect())
+    Ok(lex_opts(s, true)?.into_iter().filter(|l| !is_trivia(l.k)).map(|l| s[l.b..l.e].to_string()).collect())
 }
 
 /// comment lexemes
